@@ -22,7 +22,16 @@ Families (one theorem per kernel `K`, so a failure names the kernel):
   accumulators_wide_K     accumulators, their `+=` and the arithmetic feeding them are 64 bit, except `accumDocs`
   no_narrow_arith_K       no arithmetic narrower than 64 bit, except `narrowDocs`
   casts_safe_K            explicit and implicit conversions of numbers are safe casts, except `castDocs`
-plus  kernels_covered (the generated kernel list is the list the families are stated for), skipped_modules,
+  flags_documented_K      the kernel and every callee typing reachable from it were compiled without fast-math, with the
+                          expected error model (numpy for gufuncs - Numba forces it -, python for jit entry points),
+                          without bounds checking, sequentially, in nopython mode ...; except `flagDocs`
+  decorator_documented_K  the decorator carries only the default options (nopython=True, boundscheck=None) or `decoDocs`,
+                          no cache, no identity, no writable inputs, declared signatures
+  layouts_any_K           every array argument of every declared gufunc loop is declared `t[:]` (layout A), except
+                          `layoutDocs` (empty)
+plus  shared_helper_flags (a helper overload compiled by several first callers differs at most in the error model; the
+      helpers for which it does are exactly `errorModelSplitDocs`),
+      kernels_covered (the generated kernel list is the list the families are stated for), skipped_modules,
       whitelists_tight (every whitelist entry is needed by some kernel).
 -/
 namespace Hdc.Props.Types
@@ -114,6 +123,30 @@ def shadowOK : List Shadow := [
     "int16 data with Python scalars resolve to the float32 loop: int16 -> float32 is exact and both loops accumulate in the float32 output cell (accumDocs)"⟩
 ]
 
+/-- documented deviations from the default compile flags -/
+def flagDocs : List FlagDoc := [
+  ⟨"ws2doptvplc_tyx", "ws2doptvplc_tyx", "parallel", "true",
+    "the one documented parallel kernel: `numba.prange` over rows; iterations touch disjoint rows (C12, prangeSummary_rowLocal)"⟩,
+  ⟨"ws2doptvplc_tyx", "ws2doptvplc_tyx", "nogil", "true",
+    "`nogil=True`: the kernel touches no Python objects; has no effect on the values computed"⟩
+]
+
+/-- documented decorator options beyond the defaults -/
+def decoDocs : List DecoDoc := [
+  ⟨"ws2doptvplc_tyx", "parallel", "True", "see flagDocs"⟩,
+  ⟨"ws2doptvplc_tyx", "nogil", "True", "see flagDocs"⟩
+]
+
+/-- documented contiguity requirements of gufunc arguments: none.  NumPy hands a gufunc loop arbitrary strides
+(slices, transposed or broadcast operands); only `t[:]` makes Numba honour them. -/
+def layoutDocs : List LayoutDoc := []
+
+/-- helpers some overload of which is compiled under BOTH error models, depending on whether a gufunc (numpy model,
+forced by Numba and inherited by the callee) or a jit entry point (python model) compiles it first in the process.
+Pristine-tree finding, documented: the two models differ only when a division by zero occurs (exception vs inf / nan),
+which the callers exclude (n > 1 valid observations, lambda > 0, s != 0, variance > 0). -/
+def errorModelSplitDocs : List String := ["brentq", "gammafit", "mk_p_value", "mk_z_score", "ws2d"]
+
 /-! ## the kernels the families are stated for -/
 
 def gufuncNames : List String :=
@@ -146,7 +179,10 @@ macro "gufunc_family " k:ident " documented " d:term : command => do
     theorem $(th "outputs_documented") : Kernel.outputsDocumented $kid outDocs = true := by decide +kernel
     theorem $(th "accumulators_wide") : Kernel.accumulatorsWide $kid accumDocs = true := by decide +kernel
     theorem $(th "no_narrow_arith") : Kernel.noNarrowArith $kid narrowDocs = true := by decide +kernel
-    theorem $(th "casts_safe") : Kernel.castsSafe $kid castDocs = true := by decide +kernel)
+    theorem $(th "casts_safe") : Kernel.castsSafe $kid castDocs = true := by decide +kernel
+    theorem $(th "flags_documented") : Kernel.flagsDocumented $kid flagDocs = true := by decide +kernel
+    theorem $(th "decorator_documented") : Kernel.decoratorDocumented $kid decoDocs = true := by decide +kernel
+    theorem $(th "layouts_any") : Kernel.layoutsAny $kid layoutDocs = true := by decide +kernel)
 
 open Lean in
 /-- the family of theorems of one njit entry point (Numba compiles one specialisation per argument type: no loop
@@ -159,7 +195,9 @@ macro "njit_family " k:ident : command => do
     theorem $(th "outputs_documented") : Kernel.outputsDocumented $kid outDocs = true := by decide +kernel
     theorem $(th "accumulators_wide") : Kernel.accumulatorsWide $kid accumDocs = true := by decide +kernel
     theorem $(th "no_narrow_arith") : Kernel.noNarrowArith $kid narrowDocs = true := by decide +kernel
-    theorem $(th "casts_safe") : Kernel.castsSafe $kid castDocs = true := by decide +kernel)
+    theorem $(th "casts_safe") : Kernel.castsSafe $kid castDocs = true := by decide +kernel
+    theorem $(th "flags_documented") : Kernel.flagsDocumented $kid flagDocs = true := by decide +kernel
+    theorem $(th "decorator_documented") : Kernel.decoratorDocumented $kid decoDocs = true := by decide +kernel)
 
 /-! ## gufuncs -/
 
@@ -190,6 +228,20 @@ njit_family mann_kendall_trend_yxt
 njit_family ws2doptvplc_tyx
 njit_family _ws2dwcvp
 
+/-! ## helpers shared between kernels -/
+
+/-- the generated list `typings` covers every typing a kernel uses -/
+theorem typings_complete :
+    kernels.all (fun k => k.fns.all (fun f => typings.any (fun g => g.fn == f.fn && g.sig == f.sig && g.flags == f.flags))) = true := by
+  decide +kernel
+
+/-- whichever kernel compiles a shared helper overload first, it is compiled with the same fast-math, bounds-check,
+parallel, nogil, object-mode, NRT, rewrite and inlining flags: no flag of one kernel can leak into another kernel through
+a helper - except the error model, for exactly the documented helpers -/
+theorem shared_helper_flags :
+    sharedAgree typings = true ∧ errorModelSplit typings = errorModelSplitDocs := by
+  decide +kernel
+
 /-! ## the whitelists are tight -/
 
 def allFns : List FnTyping := kernels.flatMap (·.fns)
@@ -199,6 +251,9 @@ theorem whitelists_tight :
     (narrowDocs.all (fun d => allFns.any (fun f => (narrowKeys f).contains (d.fn, d.op, d.args, d.res)))
     && accumDocs.all (fun d => allFns.any (fun f => (accumKeys f).contains (d.fn, d.target, d.varTy, d.opTy, d.feeds)))
     && castDocs.all (fun d => allFns.any (fun f => (castKeys f).contains (d.fn, d.kind, d.src, d.dst)))
+    && flagDocs.all (fun w => kernels.any (fun k => k.flagDeviations.contains (w.kernel, w.fn, w.field, w.value)))
+    && decoDocs.all (fun w => kernels.any (fun k => k.name == w.kernel && k.deco.options.contains (w.option, w.value)))
+    && layoutDocs.all (fun w => kernels.any (fun k => k.contiguousArgs.contains (w.kernel, w.loop, w.pos)))
     && shadowOK.all (fun s => kernels.any (fun k => k.name == s.kernel && k.loops.any (fun l => l.npy == s.from &&
         callModes.any (fun m => (select k.loops (l.callWith m)).any (fun l' => l'.npy == s.to)))))) = true := by
   decide +kernel
